@@ -399,6 +399,7 @@ func c06(p *core.Program, r *core.Report) {
 	}
 
 	validatorThresholdRule(p, r, "validator-thresholds")
+	parsedNumberRule(p, r, "number-only-when-parsed")
 
 	// ---- GENSYNC
 	genSyncRule(p, r, "gensync")
